@@ -3,7 +3,7 @@
    gives the byte-level clauses of C07, C08 and C11.  Statements only; proofs in
    Proofs/LexerProofs.v. *)
 From XSG.Model Require Import Strings Necessity Element Parser Dom Lexer.
-From XSG.Proofs Require Import ElementProofs ParserFaults ParserTotal SkelProofs LexerProofs LexerC11 LexerEmpty LexerMisc LexerCData LexerExpand.
+From XSG.Proofs Require Import ElementProofs ParserFaults ParserTotal SkelProofs LexerProofs LexerC11 LexerEmpty LexerMisc LexerCData LexerExpand LexerPos.
 From Coq Require Import String.
 
 (* the default-configured reader never delivers an end tag that closes nothing: for EVERY byte
@@ -197,6 +197,11 @@ Theorem C08_bytes_position : forall bs p id,
   into_struct_bytes bs = Err (QuickXmlError p id)
   /\ exists pre post, lex bs = pre ++ EErr p id :: post /\ first_fault pre = None.
 Proof. exact bytes_position. Qed.
+(* ... and that position lies inside the input *)
+Theorem C08_bytes_error_position_in_input : forall bs p id,
+  In (EErr p id) (lex bs) -> p <= N.of_nat (List.length bs).
+Proof. exact lex_error_position. Qed.
+
 
 (* `<n/>` against `<n></n>` for a plain name n (non-empty; no blank, quote, `>`, `/`; not starting
    with `!` or `?`), written where character data may stand: the lexer delivers EEmpty against
@@ -310,3 +315,4 @@ Print Assumptions LEX_no_bom_first_byte.
 Print Assumptions C11_bytes_expand_empty.
 Print Assumptions C11_bytes_expand_empty_extend.
 Print Assumptions C11_bytes_example_expanded.
+Print Assumptions C08_bytes_error_position_in_input.
